@@ -72,6 +72,14 @@ func EnvInt(name string, def int) int {
 
 func Thorough() bool { return os.Getenv("VERIF_TIER") == "thorough" }
 
+// BuildDir is where the check driver put the binaries built from the current tree (real client, rsocks probe).
+func BuildDir() string {
+	if d := os.Getenv("HX_BUILD"); d != "" {
+		return d
+	}
+	return "/verif/.build"
+}
+
 func OutDir() string {
 	d := os.Getenv("HX_OUT")
 	if d == "" {
